@@ -1971,8 +1971,16 @@ func ruleNoSkip(w *World, r *Report, fn string) {
 							return true
 						}
 					}
-					if mc, ok := resolve(a).(*ssa.MakeClosure); ok && outside(a) {
-						if fn, ok := mc.Fn.(*ssa.Function); ok {
+					if mc, ok := resolve(a).(*ssa.MakeClosure); ok {
+						// a callback that writes what it captured: created outside the loop, or created
+						// per iteration around something that lives outside it (a seen-set, the result)
+						keeps := outside(a)
+						for _, b := range mc.Bindings {
+							if outside(b) {
+								keeps = true
+							}
+						}
+						if fn, ok := mc.Fn.(*ssa.Function); ok && keeps {
 							cs := effectsFor(w).Summary(fn)
 							if len(cs.WritesFree) > 0 || len(cs.WritesFreeDeep) > 0 {
 								return true
